@@ -178,6 +178,18 @@ func recvCase(c *fw.Ctx, r *rand.Rand, i int) {
 		cs.WireNeed = need
 		set["verif_m4"] = map[string]any{"id": "wire", "need": need, "at": need - 1, "eq": int(wire[need-1]), "pattern": "peek"}
 	}
+	// typical deployment: the route that accepts PROXY headers is itself guarded by the load balancer's address,
+	// so remote_ip / local_ip matchers have already been evaluated on the real addresses before the handler runs
+	if r.Intn(2) == 0 {
+		bits := "/32"
+		if net.ParseIP(peerIP).To4() == nil {
+			bits = "/128"
+		}
+		set["remote_ip"] = map[string]any{"ranges": []string{peerIP + bits}}
+		if r.Intn(2) == 0 {
+			set["local_ip"] = map[string]any{"ranges": []string{"192.0.2.1/32"}}
+		}
+	}
 	ppCfg := map[string]any{"handler": "proxy_protocol"}
 	if cs.Allow != nil {
 		ppCfg["allow"] = cs.Allow
@@ -372,7 +384,21 @@ func sendCase(c *fw.Ctx, r *rand.Rand, i int, up *drive.Upstream) {
 			effSrc, effDst = s, d
 		}
 	}
-	proxyH := map[string]any{"handler": "proxy", "proxy_protocol": cs.Version, "upstreams": []any{map[string]any{"dial": []string{up.Addr}}}}
+	dials := []string{up.Addr}
+	var extra []*drive.Upstream
+	if r.Intn(3) == 0 {
+		// an upstream with several peers: every peer must receive the header
+		for k := 0; k < 1+r.Intn(2); k++ {
+			u2, err := drive.NewUpstream("tcp", "", nil, func(uc *drive.UpConn) { uc.ReadAllRecord(); uc.Conn.Close() })
+			if err != nil {
+				break
+			}
+			defer u2.Close()
+			extra = append(extra, u2)
+			dials = append(dials, u2.Addr)
+		}
+	}
+	proxyH := map[string]any{"handler": "proxy", "proxy_protocol": cs.Version, "upstreams": []any{map[string]any{"dial": dials}}}
 	if chain {
 		routes = append(routes, map[string]any{"match": []any{map[string]any{"proxy_protocol": map[string]any{}}}, "handle": []any{map[string]any{"handler": "proxy_protocol"}, proxyH}})
 	} else {
@@ -414,7 +440,28 @@ func sendCase(c *fw.Ctx, r *rand.Rand, i int, up *drive.Upstream) {
 		report("upstream-connections", fmt.Sprintf("the upstream saw %d connections for one proxied connection", int64(len(conns))-before))
 		return
 	}
-	uc := conns[len(conns)-1]
+	ucs := []*drive.UpConn{conns[len(conns)-1]}
+	for pi, u2 := range extra {
+		deadline := time.Now().Add(10 * time.Second)
+		for u2.Count() == 0 && time.Now().Before(deadline) {
+			time.Sleep(time.Millisecond)
+		}
+		c2 := u2.Conns()
+		if len(c2) != 1 {
+			report("upstream-connections", fmt.Sprintf("peer %d of a multi-peer upstream saw %d connections for one proxied connection", pi+1, len(c2)))
+			return
+		}
+		ucs = append(ucs, c2[0])
+	}
+	for pi, uc := range ucs {
+		checkSent(cs, uc, pi, effSrc, effDst, payload, report)
+	}
+	c.Obs("send_cases_"+cs.Kind, 1)
+	c.Obs("send_peers_checked", int64(len(ucs)))
+	c.Case(fw.Hash(cs.Kind, cs.Version, peerIP, cs.Payload, cs.Seg, cs.HdrHex, len(ucs)), true, func() any { return cs })
+}
+
+func checkSent(cs *Case, uc *drive.UpConn, pi int, effSrc, effDst string, payload []byte, report func(kind, what string)) {
 	select {
 	case <-uc.Done():
 	case <-time.After(20 * time.Second):
@@ -424,7 +471,11 @@ func sendCase(c *fw.Ctx, r *rand.Rand, i int, up *drive.Upstream) {
 	recv := uc.Received()
 	h, n, err := ref.ParseProxyHeader(recv)
 	if err != nil {
-		report("no-well-formed-header", fmt.Sprintf("the upstream's stream does not start with a well-formed PROXY header (%v): %x", err, clip(recv, 64)))
+		kind := "no-well-formed-header"
+		if pi > 0 {
+			kind = "no-well-formed-header at a later peer of the upstream"
+		}
+		report(kind, fmt.Sprintf("the stream received by peer %d does not start with a well-formed PROXY header (%v): %x", pi, err, clip(recv, 64)))
 		return
 	}
 	if (cs.Version == "v1") != (h.Version == 1) {
@@ -446,8 +497,6 @@ func sendCase(c *fw.Ctx, r *rand.Rand, i int, up *drive.Upstream) {
 			report("stream-after-header "+oracle.DiffKind(rest, payload), "the bytes after the header are not exactly the client's stream: "+d)
 		}
 	}
-	c.Obs("send_cases_"+cs.Kind, 1)
-	c.Case(fw.Hash(cs.Kind, cs.Version, peerIP, cs.Payload, cs.Seg, cs.HdrHex), true, func() any { return cs })
 }
 
 func clip(b []byte, n int) []byte {
